@@ -207,13 +207,8 @@ func fromTransforms(dst *[]model.Transform, c message.TransformContainer) {
 	for _, lt := range c {
 		tr := model.Transform{Type: lt.TransformType, ID: lt.TransformID}
 		if lt.AttributePresent {
-			a := &model.Attr{Type: lt.AttributeType}
-			if lt.AttributeFormat == message.AttributeFormatUseTV {
-				a.TV = true
-				a.Value = lt.AttributeValue
-			} else {
-				a.Var = cp(lt.VariableLengthAttributeValue)
-			}
+			a := &model.Attr{Type: lt.AttributeType, TV: lt.AttributeFormat == message.AttributeFormatUseTV,
+				Value: lt.AttributeValue, Var: cp(lt.VariableLengthAttributeValue)}
 			tr.Attr = a
 		}
 		*dst = append(*dst, tr)
